@@ -55,6 +55,10 @@ register("C02", "discarding_history_independence", "c02_c03_histories.py C02",
 register("C03", "promotion_history_independence", "c02_c03_histories.py C03",
          "7 algorithms x 2 cones x rectangle/ellipsoid regions x 3 histories of 4 rounds on 5 designs: pareto_updating / epsiloncovering / useful_updating on a long-lived object vs an object holding only the declared state",
          covers=tuple("C03/%s.%s" % (a, m) for a in _ALGOS for m in ("pareto_updating", "epsiloncovering", "useful_updating")))
+for _p in ("C06", "C07"):
+    register(_p, "rounds_evaluate_only_active_designs", "c07_round_histories.py",
+             "6 algorithm classes (11 configurations) built by the real constructors on the Test dataset, up to 12 real run_one_step() rounds each: every problem.evaluate call checked against the state at that moment (active designs only, no repeats, batch / full sweep size, sample_count accounting, idle after completion)",
+             covers=tuple("C06/%s.evaluating" % a for a in _ALGOS) + ("C06/DecoupledGP.evaluating",))
 
 
 def run_for(prop, seed, tier="thorough", only=None):
